@@ -68,6 +68,12 @@ impl Allocation {
 impl Drop for Allocation {
     #[track_caller]
     fn drop(&mut self) {
+        // Allocations that are still registered when a leak is reported are
+        // dropped together with the execution, outside of the model.
+        if std::thread::panicking() {
+            return;
+        }
+
         let location = location!();
         rt::execution(|execution| {
             let state = self.state.get_mut(&mut execution.objects);
